@@ -47,7 +47,8 @@ def generate_direct(rng, tier: str, kind: dict) -> dict:
             bits = rng.choice([128, 128, 64, 48])
             return dict({'fam': 'v6u', 'p': str(__import__('ipaddress').ip_network(f'2001:db8:{i >> 8:x}:{i & 255:x}::{1 if bits == 128 else 0}/{bits}', strict=False)), 'nh': rng.choice(['2001:db8::1', '2001:db8::1', '2001:db8::2'])}, **ap)
         if fam == 'v4l':
-            return dict({'fam': 'v4l', 'p': f'10.{(i >> 16) & 255}.{(i >> 8) & 255}.{i & 255}/32', 'nh': '10.0.0.9', 'labels': [100 + i % 1000]}, **ap)
+            nh = rng.choice(['10.0.0.9', '2001:db8::1']) if kind.get('nexthop_ext_l') else '10.0.0.9'  # next hops of 4 and 16 bytes in one family
+            return dict({'fam': 'v4l', 'p': f'10.{(i >> 16) & 255}.{(i >> 8) & 255}.{i & 255}/32', 'nh': nh, 'labels': [100 + i % 1000]}, **ap)
         if fam == 'v4vpn':
             return dict({'fam': 'v4vpn', 'p': f'10.{(i >> 16) & 255}.{(i >> 8) & 255}.{i & 255}/32', 'nh': '10.0.0.9', 'labels': [100 + i % 1000], 'rd': '65000:1'}, **ap)
         bits = rng.choice([32, 32, 24, 8])
@@ -126,6 +127,7 @@ def generate(rng, tier: str, index: int) -> dict:
     if index % 3 == 2:
         # the packer is also handed routes of a family the session did not negotiate (configured here, not offered by the peer)
         kind['peer_drops'] = rng.choice([[], [], [], ['v4u'], ['v6u'], ['v4l', 'v4vpn']])
+        kind['nexthop_ext_l'] = 'v4l' not in kind['peer_drops'] and rng.chance(0.4)
         return generate_direct(rng, tier, kind)
     mx = 65535 if kind['extmsg'] else 4096
     batches = []
